@@ -36,9 +36,10 @@ BOUND = (
     'id given or None)} with <= 3 worker slots and <= 3 queued task '
     'messages: every path up to depth 4 (quick) / 5 (thorough) over a '
     '2-slot, 3-template sub-alphabet; one shortest history per distinct '
-    'state extended by every enabled event of the full alphabet up to depth '
-    '7 (quick, time-boxed) / 9 (thorough); seed-sampled histories of length '
-    '7 (quick) / 10 (thorough)'
+    'state extended by every enabled event up to depth 5 (quick) / 8 '
+    '(thorough) over the sub-alphabet and 4 (quick) / 7 (thorough) over the '
+    'full alphabet; 5000 (quick) / 60000 (thorough) seed-sampled histories '
+    'of length 7 / 10, two thirds of them with one register per connection'
 )
 CLAUSES = [
     'C11.revision',
@@ -580,6 +581,20 @@ class World:
                 (m.target for m in mine), key=lambda t: (t is not None, t)
             )
             if got_targets != want_targets:
+                rest = list(want_targets)
+                subset = True
+                for t in got_targets:
+                    if t in rest:
+                        rest.remove(t)
+                    else:
+                        subset = False
+                if subset:
+                    self.fail(
+                        'C11.queued',
+                        'task-lost-in-dispatch',
+                        {'job': tag, 'targets': got_targets},
+                        {'targets': want_targets},
+                    )
                 self.fail(
                     'C11.fields',
                     'wrong-targets-for-' + fname,
@@ -765,40 +780,70 @@ def _explore_job(args):
     return _explore(depth, nslots, alpha, prefix, time.time() + budget)
 
 
-def _merged_bfs(depth, nslots, alpha, deadline):
+def _expand_chunk(args):
+    '''extend each history by every enabled event; -> (cases, new, found)'''
+    hists, nslots, alpha, deadline = args
+    cases = 0
+    out = []
+    found = {}
+    complete = True
+    for hist in hists:
+        if time.time() > deadline:
+            complete = False
+            break
+        w, _v = _replay(hist, nslots)
+        for ev in alpha:
+            if not w.enabled(ev):
+                continue
+            cand = hist + [ev]
+            w2, vio = _replay(cand, nslots)
+            cases += 1
+            if vio is not None:
+                key = (vio.clause, vio.signature)
+                if key not in found:
+                    found[key] = {
+                        'history': cand,
+                        'observed': pc.jsonable(vio.observed),
+                        'expected': pc.jsonable(vio.expected),
+                        'step': vio.step,
+                    }
+                continue
+            out.append((w2.signature(), cand))
+    return cases, out, found, complete
+
+
+def _merged_bfs(depth, nslots, alpha, deadline, pool=None, nproc=1):
+    '''breadth-first over distinct states: one shortest history per state
+    signature is kept and extended by every enabled event'''
     cases = 0
     found = {}
     w0 = World(nslots)
-    seen = {w0.signature(): []}
+    seen = {w0.signature()}
     frontier = [[]]
     complete = True
     reached = 0
     for level in range(depth):
+        if time.time() > deadline:
+            complete = False
+            break
+        if pool is not None and len(frontier) > 4 * nproc:
+            size = max(1, len(frontier) // (8 * nproc))
+            chunks = [
+                (frontier[i : i + size], nslots, alpha, deadline)
+                for i in range(0, len(frontier), size)
+            ]
+            results = pool.map(_expand_chunk, chunks, chunksize=1)
+        else:
+            results = [_expand_chunk((frontier, nslots, alpha, deadline))]
         nxt = []
-        for hist in frontier:
-            if time.time() > deadline:
-                complete = False
-                break
-            w, _v = _replay(hist, nslots)
-            for ev in alpha:
-                if not w.enabled(ev):
-                    continue
-                cand = hist + [ev]
-                w2, vio = _replay(cand, nslots)
-                cases += 1
-                if vio is not None:
-                    key = (vio.clause, vio.signature)
-                    if key not in found:
-                        found[key] = {
-                            'history': cand,
-                            'observed': vio.observed,
-                            'expected': vio.expected,
-                            'step': vio.step,
-                        }
-                    continue
-                sig = w2.signature()
+        for cs, out, fd, done in results:
+            complete = complete and done
+            cases += cs
+            for key, rec in fd.items():
+                found.setdefault(key, rec)
+            for sig, cand in out:
                 if sig not in seen:
-                    seen[sig] = cand
+                    seen.add(sig)
                     nxt.append(cand)
         if not complete:
             break
@@ -806,10 +851,12 @@ def _merged_bfs(depth, nslots, alpha, deadline):
         frontier = nxt
         if not frontier:
             break
-    return cases, set(seen), found, complete, reached
+    return cases, seen, found, complete, reached
 
 
-def _random_history(rng, length, nslots):
+def _random_history(rng, length, nslots, strict):
+    '''strict: every connection sends one register message at most (a
+    worker that registers again has dropped its old connection first)'''
     w = World(nslots)
     hist = []
     vio = None
@@ -822,9 +869,14 @@ def _random_history(rng, length, nslots):
         'enq': 3,
     }
     try:
-        for _ in range(length):
+        while len(hist) < length:
             evs = [e for e in FULL if w.enabled(e)]
             ev = rng.choices(evs, [weights[e[0]] for e in evs])[0]
+            if strict and ev[0] == 'reg':
+                p = w.slots[ev[1]]
+                if p is not None and p.alive and p.regs:
+                    hist.append(('disc', ev[1]))
+                    w.do(('disc', ev[1]))
             hist.append(ev)
             w.do(ev)
     except Violation as v:
@@ -850,7 +902,30 @@ def _shrink(history, clause, signature, nslots=3):
 # ----------------------------------------------------------------- interface
 
 
+NOTES = {
+    'double-registration': (
+        'needs a client that sends two register messages on one connection '
+        '(dawgie.pl.worker.cluster.execute sends one): Hand._reg appends the '
+        'connection to farm._workers once per message, dispatch pops it '
+        'twice, so the second task goes to a worker that already holds one'
+    ),
+    'stale-reregistration': (
+        'same root cause, weaker reading: the connection registered with '
+        'the current revision, then registered again naming another '
+        'revision; Hand._reg answers abort + loseConnection() but leaves the '
+        'first entry in farm._workers, and the next dispatch sends a task to '
+        'the connection it just told to leave.  It is a violation if the '
+        'latest register message counts as the registration / a closed '
+        'connection does not count as connected; under the most literal '
+        'reading (registered once with the current revision, connectionLost '
+        'not yet delivered) it is not'
+    ),
+}
+
+
 def _record(key, rec):
+    if key[1] in NOTES:
+        rec = dict(rec, note=NOTES[key[1]])
     return {
         'clause': key[0],
         'signature': key[1],
@@ -861,6 +936,7 @@ def _record(key, rec):
         'observed': pc.jsonable(rec['observed']),
         'expected': pc.jsonable(rec['expected']),
         'step': rec['step'],
+        **({'note': rec['note']} if 'note' in rec else {}),
     }
 
 
@@ -881,54 +957,84 @@ def run(tier: str, seed: int) -> dict:
             ):
                 found[key] = rec
 
-    # 1. every path over the small alphabet
-    depth = 5 if thorough else 4
+    pool = None
+    nproc = 1
     if thorough:
         import multiprocessing
 
-        w0 = World(nslots)
-        firsts = [[e] for e in SMALL if w0.enabled(e)]
-        prefixes = []
-        for f in firsts:
-            w, v = _replay(f, nslots)
-            if v is None:
-                prefixes.extend(f + [e] for e in SMALL if w.enabled(e))
-        jobs = [(depth, nslots, SMALL, p, 150.0) for p in prefixes]
         nproc = min(16, os.cpu_count() or 1)
-        with multiprocessing.get_context('fork').Pool(nproc) as pool:
+        pool = multiprocessing.get_context('fork').Pool(nproc)
+    try:
+        # 1. every path over the small alphabet
+        depth = 5 if thorough else 4
+        if thorough:
+            w0 = World(nslots)
+            firsts = [[e] for e in SMALL if w0.enabled(e)]
+            prefixes = []
+            for f in firsts:
+                w, v = _replay(f, nslots)
+                if v is None:
+                    prefixes.extend(f + [e] for e in SMALL if w.enabled(e))
+            jobs = [(depth, nslots, SMALL, p, 100.0) for p in prefixes]
             results = pool.map(_explore_job, jobs, chunksize=1)
-        results.append(_explore_job((1, nslots, SMALL, [], 60.0)))
-    else:
-        results = [_explore_job((depth, nslots, SMALL, [], 8.0))]
-    exhaustive = True
-    for cs, sg, fd, sm, complete in results:
-        cases += cs
-        sigs |= sg
-        exhaustive = exhaustive and complete
-        merge(fd)
-        for h in sm:
-            if len(samples) < 2:
-                samples.append([list(e) for e in h])
+            results.append(_explore_job((1, nslots, SMALL, [], 60.0)))
+        else:
+            results = [_explore_job((depth, nslots, SMALL, [], 8.0))]
+        exhaustive = True
+        for cs, sg, fd, sm, complete in results:
+            cases += cs
+            sigs |= sg
+            exhaustive = exhaustive and complete
+            merge(fd)
+            for h in sm:
+                if len(samples) < 2:
+                    samples.append([list(e) for e in h])
 
-    # 2. one history per distinct state, full alphabet
-    mdepth = 9 if thorough else 7
-    mcases, msigs, mfound, mcomplete, mreached = _merged_bfs(
-        mdepth, nslots, FULL, t0 + (200.0 if thorough else 13.0)
-    )
-    cases += mcases
-    sigs |= msigs
-    merge(mfound)
+        # 2. one history per distinct state
+        merged = []
+        for alpha, mdepth, label in (
+            (SMALL, 8 if thorough else 5, 'small'),
+            (FULL, 7 if thorough else 4, 'full'),
+        ):
+            mcases, msigs, mfound, mcomplete, mreached = _merged_bfs(
+                mdepth,
+                nslots,
+                alpha,
+                t0 + (190.0 if thorough else 11.0),
+                pool,
+                nproc,
+            )
+            cases += mcases
+            sigs |= msigs
+            merge(mfound)
+            exhaustive = exhaustive and mcomplete
+            merged.append(
+                {
+                    'alphabet': label,
+                    'depth': mdepth,
+                    'reached': mreached,
+                    'complete': bool(mcomplete),
+                    'states': len(msigs),
+                    'cases': mcases,
+                }
+            )
+    finally:
+        if pool is not None:
+            pool.close()
+            pool.join()
 
-    # 3. sampled histories
+    # 3. sampled histories (2 of 3 with protocol-conformant workers)
     rng = random.Random(seed)
-    nrand = 40000 if thorough else 1500
+    nrand = 60000 if thorough else 5000
     length = 10 if thorough else 7
-    stop = t0 + (280.0 if thorough else 17.0)
+    stop = t0 + (260.0 if thorough else 15.0)
+    nsampled = 0
     for i in range(nrand):
         if time.time() > stop:
             break
-        hist, vio, sig = _random_history(rng, length, nslots)
+        hist, vio, sig = _random_history(rng, length, nslots, i % 3 != 0)
         cases += 1
+        nsampled += 1
         sigs.add(sig)
         if i < 2:
             samples.append([list(e) for e in hist])
@@ -960,9 +1066,8 @@ def run(tier: str, seed: int) -> dict:
         'violations': [_record(k, r) for k, r in sorted(found.items())],
         'clauses': list(CLAUSES),
         'path_depth': depth,
-        'merged_depth_reached': mreached,
-        'merged_complete': bool(mcomplete),
-        'merged_states': len(msigs),
+        'merged': merged,
+        'sampled': nsampled,
         'wall_s': round(time.time() - t0, 2),
     }
 
